@@ -101,6 +101,14 @@ class Session:
         self.ctx, self.res = ctx, res
         # tmpfs when available: the enumeration rewrites one small file ~10^5 times (flock and partial writes behave the same)
         base = '/dev/shm' if os.path.isdir('/dev/shm') and os.access('/dev/shm', os.W_OK) else None
+        if base:        # a worker killed by the driver cannot clean up: remove what such workers left behind long ago
+            for name in os.listdir(base):
+                q = os.path.join(base, name)
+                try:
+                    if name.startswith('c18-') and time.time() - os.path.getmtime(q) > 3 * 3600:
+                        shutil.rmtree(q, ignore_errors=True)
+                except OSError:
+                    pass
         self.root = tempfile.mkdtemp(prefix='c18-', dir=base)
         self.nviol = 0
         self.ntagged = 0
@@ -274,8 +282,10 @@ def run_payload(S, spec, users=False):
             escaped = o.kind == 'raise' and il[0] == o.exc and o.exc not in L.CAUGHT_BY_DESIGN
             if escaped:
                 res.count(f'escapes/{fam}/{o.exc}')
-            if not strict and (escaped or il[0] == 'loads'):
-                res.count(f'out_of_scope/{fam}/' + ('escape' if escaped else 'loads'))
+            if not strict and (o.kind == 'raise' or il[0] == 'loads'):
+                # bytes that no killed writer can leave behind (zero-filled tail, random garbage): outside the property text
+                # (it speaks of kills while writing); what the unpickler makes of them is counted, never a verdict
+                res.count(f'out_of_scope/{fam}/' + (f'raised {o.exc}' if o.kind == 'raise' else 'loads as something else'))
                 return o
             if escaped and fam == 'mix' and 0 < k < len(faultnew[0]):
                 # structural predicate of the known mechanism: prefix of one serialisation + tail of another, and the
